@@ -163,26 +163,103 @@ func init() {
 		if !ok {
 			return Res{"unknown_fn": true}
 		}
-		o := rd(append([]byte{}, a.Bytes("in")...), a)
+		in := a.Bytes("in")
+		if a.Bool("signed") {
+			// a structure that really verifies: the specification's skeleton with real keys and signatures in its slots
+			sb, serr := buildSigned(s, a)
+			if serr != "" {
+				return Res{"parsed": false, "err": "signing: " + serr}
+			}
+			in = sb
+		}
+		o := rd(append([]byte{}, in...), a)
 		if !o.OK || o.Val == nil {
 			return Res{"parsed": false, "err": o.Err}
 		}
+		// two more parses of the same bytes: one stays untouched (reference for field-level comparison), one is the control
+		ref1 := rd(append([]byte{}, in...), a)
+		ref2 := rd(append([]byte{}, in...), a)
 		v := reflect.ValueOf(o.Val)
 		methods := readOnlyMethods(v)
-		before := fmt.Sprintf("%v", observe(o.Val))
+		// calls with arguments (read-only by name): two argument tuples each
+		type argCall struct {
+			idx  int
+			args []reflect.Value
+			name string
+		}
+		var argCalls []argCall
+		for i := 0; i < v.Type().NumMethod(); i++ {
+			m := v.Type().Method(i)
+			nin := m.Type.NumIn() - 1
+			if nin < 1 || m.Type.IsVariadic() || strings.HasPrefix(m.Name, "Set") || strings.HasPrefix(m.Name, "Add") || strings.HasPrefix(m.Name, "With") || strings.HasPrefix(m.Name, "Decrypt") {
+				continue
+			}
+			for pick := 0; pick < 3; pick++ {
+				args := make([]reflect.Value, nin)
+				okc := true
+				for k := 0; k < nin; k++ {
+					c := argCandidates(m.Type.In(k+1), v)
+					if len(c) == 0 {
+						okc = false
+						break
+					}
+					args[k] = c[(pick*5+1+k)%len(c)]
+				}
+				if okc {
+					argCalls = append(argCalls, argCall{i, args, m.Name})
+				}
+			}
+		}
+		ncalls := len(methods) + len(argCalls)
+		call := func(j int) string {
+			if j < len(methods) {
+				return render(v.Method(methods[j]).Call(nil))
+			}
+			ac := argCalls[j-len(methods)]
+			return render(v.Method(ac.idx).Call(ac.args))
+		}
+		nameOf := func(j int) string {
+			if j < len(methods) {
+				return v.Type().Method(methods[j]).Name
+			}
+			return argCalls[j-len(methods)].name + "(..)"
+		}
 		tablesBefore := tablesSnapshot()
 		raceBefore := raceLogSize()
-		seq := make([]string, len(methods))
-		for j, i := range methods {
-			seq[j] = render(v.Method(i).Call(nil))
-		}
+		// the concurrent phase comes FIRST: lazily initialised state is then initialised under contention
 		n, reps := a.Int("n"), a.Int("reps")
 		var wg sync.WaitGroup
 		start := make(chan struct{})
 		var mu sync.Mutex
-		mismatches := []string{}
 		panics := 0
+		// lock-step round: for every call j, n fresh goroutines make that same call at the same moment (first uses collide
+		// while the race detector still remembers them); their answers are compared with the sequential ones below
+		lock := make([][]string, ncalls)
+		for j := 0; j < ncalls; j++ {
+			lock[j] = make([]string, n)
+			var lw sync.WaitGroup
+			gate := make(chan struct{})
+			for g := 0; g < n; g++ {
+				lw.Add(1)
+				go func(g int) {
+					defer lw.Done()
+					defer func() {
+						if p := recover(); p != nil {
+							mu.Lock()
+							panics++
+							mu.Unlock()
+						}
+					}()
+					<-gate
+					lock[j][g] = call(j)
+				}(g)
+			}
+			close(gate)
+			lw.Wait()
+		}
+		got := make([][]string, n) // per goroutine: result of call j in repetition r at [r*ncalls+j]
 		for g := 0; g < n; g++ {
+			got[g] = make([]string, reps*ncalls)
 			wg.Add(1)
 			go func(g int) {
 				defer wg.Done()
@@ -195,16 +272,9 @@ func init() {
 				}()
 				<-start
 				for r := 0; r < reps; r++ {
-					for k := range methods {
-						j := (k + g*7 + r) % len(methods)
-						got := render(v.Method(methods[j]).Call(nil))
-						if got != seq[j] {
-							mu.Lock()
-							if len(mismatches) < 5 {
-								mismatches = append(mismatches, v.Type().Method(methods[j]).Name)
-							}
-							mu.Unlock()
-						}
+					for k := 0; k < ncalls; k++ {
+						j := (k + g*7 + r) % ncalls
+						got[g][r*ncalls+j] = call(j)
 						if (k+g)%5 == 0 {
 							key_certificate.GetKeySizes(7, 4)
 							key_certificate.GetSignatureSize(k % 12)
@@ -215,9 +285,43 @@ func init() {
 		}
 		close(start)
 		wg.Wait()
+		// ... and the sequential answers afterwards
+		seq := make([]string, ncalls)
+		for j := 0; j < ncalls; j++ {
+			seq[j] = call(j)
+		}
+		mismatches := []string{}
+		seen := map[string]bool{}
+		for g := 0; g < n; g++ {
+			for x, s := range got[g] {
+				j := x % ncalls
+				if s != seq[j] && s != "" && !seen[nameOf(j)] {
+					seen[nameOf(j)] = true
+					if len(mismatches) < 5 {
+						mismatches = append(mismatches, nameOf(j))
+					}
+				}
+			}
+		}
+		for j := 0; j < ncalls; j++ {
+			for g := 0; g < n; g++ {
+				if lock[j][g] != seq[j] && lock[j][g] != "" && !seen[nameOf(j)] {
+					seen[nameOf(j)] = true
+					if len(mismatches) < 5 {
+						mismatches = append(mismatches, nameOf(j))
+					}
+				}
+			}
+		}
 		after := fmt.Sprintf("%v", observe(o.Val))
-		res := Res{"parsed": true, "nmethods": len(methods), "nruns": n * reps * len(methods), "mismatches": mismatches, "panics": panics,
-			"value_unchanged": before == after, "tables_unchanged": tablesBefore == tablesSnapshot()}
+		fresh := fmt.Sprintf("%v", observe(ref1.Val))
+		res := Res{"parsed": true, "nmethods": ncalls, "nruns": n * reps * ncalls, "mismatches": mismatches, "panics": panics,
+			"value_unchanged": fresh == after, "tables_unchanged": tablesBefore == tablesSnapshot()}
+		// field-level: the value that was queried still equals a value freshly parsed from the same bytes (unexported fields included);
+		// judged only when two untouched parses are equal to each other in this sense
+		control := ref1.OK && ref2.OK && reflect.DeepEqual(ref1.Val, ref2.Val)
+		res["deep_control"] = control
+		res["deep_unchanged"] = !control || reflect.DeepEqual(o.Val, ref1.Val)
 		raced := raceLogSize() > raceBefore
 		res["race"] = raced
 		res["race_report"] = ""
